@@ -63,7 +63,9 @@ where
 
     /// Returns the number of opened streams in the `dir` direction.
     fn opened_streams(&self, dir: Dir) -> u64 {
-        self.unallocated[dir as usize]
+        // Not more than the peer allows: after a rejected 0-RTT attempt the limit may be
+        // below the number of streams already opened.
+        self.unallocated[dir as usize].min(self.max[dir as usize])
     }
 
     /// Receive the [`MaxStreamsFrame`](`crate::frame::MaxStreamsFrame`) from peer,
